@@ -1,0 +1,20 @@
+//go:build verif
+
+package cgroup
+
+// Verification hooks (build tag "verif"): observation / test construction only.
+
+// VerifNextRandom, when set, replaces the random name source of Random() so that name collisions actually occur.
+var VerifNextRandom func() string
+
+func verifNextRandom() (string, bool) {
+	if f := VerifNextRandom; f != nil {
+		return f(), true
+	}
+	return "", false
+}
+
+// VerifV2At returns a v2 handle on an arbitrary directory (a fake tree with generated file contents).
+func VerifV2At(path string, ct *Controllers) Cgroup {
+	return &V2{path: path, control: ct, existing: true}
+}
